@@ -979,9 +979,15 @@ def exponential_binning(
             raise ValueError("Cannot guess the range without data.")
         range = (np.log10(data.min()), np.log10(data.max()))
     log_width = (range[1] - range[0]) / bin_count
-    return ExponentialBinning(
+    binning = ExponentialBinning(
         log_min=range[0], log_width=log_width, bin_count=bin_count, **kwargs
     )
+    edges = binning.numpy_bins
+    if not np.all(edges[1:] > edges[:-1]):
+        raise ValueError(
+            f"Range too narrow to split into {bin_count} exponential bins: {edges[0]} to {edges[-1]}."
+        )
+    return binning
 
 
 with suppress(ImportError):
